@@ -752,6 +752,20 @@ class LPData:
     c0: float = 0.0
 
 
+def _vector_is_aligned(vector: object, var_index: dict[str, int], n: int) -> bool:
+    """True when ``vector`` lists exactly the LP's variables, in the LP's order.
+
+    Only then may a per-vector coefficient array be used as the LP row as it
+    is.  Checking the length and the first element alone is not enough: a row
+    of ``diag_matrix(x)`` or any other view whose elements are not in natural
+    order can cover all ``n`` variables and start with variable 0.
+    """
+    variables = vector._variables  # type: ignore[attr-defined]
+    if len(variables) != n:
+        return False
+    return all(var_index.get(v.name, -1) == i for i, v in enumerate(variables))
+
+
 def extract_all_linear_coefficients(
     expr: Expression,
     var_index: dict[str, int],
@@ -789,24 +803,15 @@ def extract_all_linear_coefficients(
     # Fast path: VectorSum over VectorVariable covering all variables
     # This is O(1) using numpy instead of O(n) Python loop
     if isinstance(expr, VectorSum) and isinstance(expr.vector, VectorVariable):
-        vec_n = len(expr.vector._variables)
-        if vec_n == n:
-            # Check if variables are in order (common case)
-            first_var = expr.vector._variables[0]
-            first_idx = var_index.get(first_var.name, -1)
-            if first_idx == 0:
-                # All variables in order, return ones directly
-                return np.ones(n, dtype=np.float64)
+        if _vector_is_aligned(expr.vector, var_index, n):
+            # All variables in order, return ones directly
+            return np.ones(n, dtype=np.float64)
 
     # Fast path: LinearCombination over VectorVariable covering all variables
     if isinstance(expr, LinearCombination) and isinstance(expr.vector, VectorVariable):
-        vec_n = len(expr.vector._variables)
-        if vec_n == n:
-            first_var = expr.vector._variables[0]
-            first_idx = var_index.get(first_var.name, -1)
-            if first_idx == 0:
-                # Variables in order, return coefficients directly
-                return np.asarray(expr.coefficients, dtype=np.float64).copy()
+        if _vector_is_aligned(expr.vector, var_index, n):
+            # Variables in order, return coefficients directly
+            return np.asarray(expr.coefficients, dtype=np.float64).copy()
 
     # Fast path: BinaryOp with VectorSum/LinearCombination (e.g., x.sum() - k)
     if isinstance(expr, BinaryOp):
@@ -837,23 +842,19 @@ def _try_extract_fast_binop(
         if isinstance(expr.left, VectorSum) and isinstance(
             expr.left.vector, VectorVariable
         ):
-            vec_n = len(expr.left.vector._variables)
-            if vec_n == n:
-                first_var = expr.left.vector._variables[0]
-                first_idx = var_index.get(first_var.name, -1)
-                if first_idx == 0 and isinstance(expr.right, (Constant, int, float)):
-                    return np.ones(n, dtype=np.float64)
+            if _vector_is_aligned(
+                expr.left.vector, var_index, n
+            ) and isinstance(expr.right, (Constant, int, float)):
+                return np.ones(n, dtype=np.float64)
 
         # Try left side as LinearCombination
         if isinstance(expr.left, LinearCombination) and isinstance(
             expr.left.vector, VectorVariable
         ):
-            vec_n = len(expr.left.vector._variables)
-            if vec_n == n:
-                first_var = expr.left.vector._variables[0]
-                first_idx = var_index.get(first_var.name, -1)
-                if first_idx == 0 and isinstance(expr.right, (Constant, int, float)):
-                    return np.asarray(expr.left.coefficients, dtype=np.float64).copy()
+            if _vector_is_aligned(
+                expr.left.vector, var_index, n
+            ) and isinstance(expr.right, (Constant, int, float)):
+                return np.asarray(expr.left.coefficients, dtype=np.float64).copy()
 
     # Handle: constant * VectorSum, VectorSum * constant
     if expr.op == "*":
@@ -861,23 +862,15 @@ def _try_extract_fast_binop(
             if isinstance(expr.right, VectorSum) and isinstance(
                 expr.right.vector, VectorVariable
             ):
-                vec_n = len(expr.right.vector._variables)
-                if vec_n == n:
-                    first_var = expr.right.vector._variables[0]
-                    first_idx = var_index.get(first_var.name, -1)
-                    if first_idx == 0:
-                        return np.full(n, float(expr.left.value), dtype=np.float64)
+                if _vector_is_aligned(expr.right.vector, var_index, n):
+                    return np.full(n, float(expr.left.value), dtype=np.float64)
 
         if isinstance(expr.right, Constant):
             if isinstance(expr.left, VectorSum) and isinstance(
                 expr.left.vector, VectorVariable
             ):
-                vec_n = len(expr.left.vector._variables)
-                if vec_n == n:
-                    first_var = expr.left.vector._variables[0]
-                    first_idx = var_index.get(first_var.name, -1)
-                    if first_idx == 0:
-                        return np.full(n, float(expr.right.value), dtype=np.float64)
+                if _vector_is_aligned(expr.left.vector, var_index, n):
+                    return np.full(n, float(expr.right.value), dtype=np.float64)
 
     return None
 
